@@ -6,7 +6,9 @@ import udgen
 IMPORTS = ["Base", "Harness", "TopRankModel", "Check_C08"]
 CHECK_FN = "check_C08"
 RULE = ("references over A/C/G/T; queries and targets drawn from a small pseudo-tree (ancestor, child, grandchild, "
-        "siblings) with ambiguity tracts and multiple hits, so that all four bins, shared SNPs, distance ties and ambiguity "
+        "siblings) with ambiguity tracts and multiple hits (a third of the cases instead build the targets bin by bin around "
+        "one query with 0-8 candidates per bin in shuffled file order, so some bins exceed the requested capacity while others "
+        "stay under it), so that all four bins, shared SNPs, distance ties and ambiguity "
         "ties occur; option sets: --size-total, --size-*, (incl. -1 = all), --no-fill, --dist-all/--dist-*, --dist-push, "
         "--threshold-pair, --threshold-target, --ignore, list and --table output. Table-form outputs are checked against an "
         "oracle written from the statement (bin by which sequence carries A/C/G/T differences the other lacks; distance = "
@@ -36,10 +38,13 @@ def tr_case(cid, ref, queries, targets, o, rng, meta, qtype="fasta", ttype="fast
 def generate(ctx):
     rng = ctx.rng
     cs = []
-    n = 80 if ctx.tier == "quick" else 1500
+    n = 120 if ctx.tier == "quick" else 1500
     for cid in range(n):
-        ref, queries, targets = udgen.make_inputs(rng)
-        o = udgen.random_opts(rng, len(targets))
+        if cid % 3 == 2:
+            ref, queries, targets, o = udgen.crowded_case(rng)
+        else:
+            ref, queries, targets = udgen.make_inputs(rng)
+            o = udgen.random_opts(rng, len(targets))
         nt = len({udgen.pair_stats(ref, queries[0][1], t)[0] for _, t in targets}) >= 2
         cs.append(tr_case(cid, ref, queries, targets, o, rng, {"kind": "size" if not o["distpush"] else "push", "nontrivial": nt}))
     return cs
